@@ -586,7 +586,12 @@ eng_entry(void)
                         int fam = (int) (e % 3);
                         const struct suite *s = &tabs[fam][(e / 3) % ntabs[fam]];
                         const struct suite *cs = fam == 1 ? NULL : s, *hs = fam == 1 ? s : NULL;
+                        /* lengths: mostly short, one in five beyond the by8/by16/by32 kernel main-loop thresholds (tails of long
+                         * messages take other paths - and other registers - than short ones) */
+                        static const long longlens[] = { 497, 500, 511, 512, 513, 767, 768, 1000, 1023, 1024, 1025, 1499, 2047, 2049, 3000, 4095, 4097, 8191 };
                         long len = rng_below(&r, 4) == 0 ? -1 : 1 + (long) rng_below(&r, 300);
+                        if (rng_below(&r, 5) == 0)
+                                len = rng_below(&r, 2) ? longlens[rng_below(&r, ARRAY_SZ(longlens))] : 300 + (long) rng_below(&r, 4000);
                         uint64_t seed = rng_u64(&r);
                         if (sigsetjmp(jb, 1)) {
                                 char key[240], det[300];
